@@ -435,15 +435,9 @@ def c02_8(R):
     R.floor("sites turning off both liveness timers", sites, 1)
 
 
-@rule("C02.9", ["C02", "C19"], ["E3"], "the dispatcher registers with the writer before it goes idle on an empty TX ring",
-      "In split_tx_queue_into_segments every return taken under tx_len == 0 (nothing buffered) is preceded by update_optional_waker(UserTxLocked.dispatcher_waker, cx), under the same "
-      "UserTx.locked write guard that the length was read under: poll_write's wake (C02.1) only reaches a dispatcher that registered here - the mechanism behind 'a write on an idle "
-      "connection is transmitted at once'.")
-def c02_9(R):
-    sp = R.body(VS + "::split_tx_queue_into_segments")
-    regs = {t.bb for t in sp.calls() if call_matches(t, ("utils::update_optional_waker",)) and trace(sp, t.args[0]).last_field == "UserTxLocked.dispatcher_waker"}
-    R.floor("registration of UserTxLocked.dispatcher_waker in split_tx_queue_into_segments", len(regs), 1)
-    zero_targets = []
+def tx_len_zero_edges(sp):
+    """[(test block, target taken when the TX ring is empty)] in split_tx_queue_into_segments: the tests of `first.len() + second.len() == 0`"""
+    out = []
     for blk in sp.blocks:
         if blk.cleanup or blk.term.kind != "switch" or blk.idx not in sp.live_blocks():
             continue
@@ -459,7 +453,19 @@ def c02_9(R):
             if from_slices:
                 be = bool_edges(sp, blk.idx)
                 edge_truth_ = operand_truth != neg
-                zero_targets.append(be[1] if edge_truth_ else be[0])
+                out.append((blk.idx, be[1] if edge_truth_ else be[0]))
+    return out
+
+
+@rule("C02.9", ["C02", "C19"], ["E3"], "the dispatcher registers with the writer before it goes idle on an empty TX ring",
+      "In split_tx_queue_into_segments every return taken under tx_len == 0 (nothing buffered) is preceded by update_optional_waker(UserTxLocked.dispatcher_waker, cx), under the same "
+      "UserTx.locked write guard that the length was read under: poll_write's wake (C02.1) only reaches a dispatcher that registered here - the mechanism behind 'a write on an idle "
+      "connection is transmitted at once'.")
+def c02_9(R):
+    sp = R.body(VS + "::split_tx_queue_into_segments")
+    regs = {t.bb for t in sp.calls() if call_matches(t, ("utils::update_optional_waker",)) and trace(sp, t.args[0]).last_field == "UserTxLocked.dispatcher_waker"}
+    R.floor("registration of UserTxLocked.dispatcher_waker in split_tx_queue_into_segments", len(regs), 1)
+    zero_targets = [tgt for blk_, tgt in tx_len_zero_edges(sp)]
     R.require(len(zero_targets) >= 1, "test of tx_len == 0 in split_tx_queue_into_segments")
     rets = sp.return_blocks()
     bad = False
